@@ -419,8 +419,11 @@ def run_check(mod, tier, seed, jobs=None):
         'assumptions': list(getattr(mod, 'ASSUMPTIONS', [])) + m['notes'][:10],
         'wall_s': round(time.time() - t0, 2), 'violations': nviol,
     }
-    os.makedirs(os.path.join(VERIF, 'evidence'), exist_ok=True)
-    with open(os.path.join(VERIF, 'evidence', prop + '.json'), 'w') as f:
+    # sensitivity experiments against a patched scratch tree (tools/verify_seeded.sh, tools/mut.sh) must not overwrite the
+    # evidence of /repo: they point VERIF_EVIDENCE_DIR at a scratch directory
+    evdir = os.environ.get('VERIF_EVIDENCE_DIR') or os.path.join(VERIF, 'evidence')
+    os.makedirs(evdir, exist_ok=True)
+    with open(os.path.join(evdir, prop + '.json'), 'w') as f:
         json.dump(ev, f, indent=1, sort_keys=True)
         f.write('\n')
     for l in out_lines:
